@@ -32,11 +32,19 @@ fn decrypt_ip(ip: &Value, key: Value, mode: &Value) -> Resolved {
         "pfx" => match ip_addr {
             IpAddr::V4(ipv4) => {
                 let key = to_key::<32>(key, "pfx", ip_ver_label)?;
+                // `IpcryptPfx::new` asserts that the two halves of the key differ.
+                if key[..16] == key[16..] {
+                    return Err("pfx mode requires a key whose two 16-byte halves differ".into());
+                }
                 let ipcrypt_pfx = IpcryptPfx::new(key);
                 ipcrypt_pfx.decrypt_ipaddr(IpAddr::V4(ipv4))
             }
             IpAddr::V6(ipv6) => {
                 let key = to_key::<32>(key, "pfx", ip_ver_label)?;
+                // `IpcryptPfx::new` asserts that the two halves of the key differ.
+                if key[..16] == key[16..] {
+                    return Err("pfx mode requires a key whose two 16-byte halves differ".into());
+                }
                 let ipcrypt_pfx = IpcryptPfx::new(key);
                 ipcrypt_pfx.decrypt_ipaddr(IpAddr::V6(ipv6))
             }
